@@ -61,6 +61,9 @@ def tasks(tier):
         for nb in (1, 2, 3):
             out.append('gj:%d:%d' % (n, nb))
     out += ['gjwit', 'linalg3', 'tql2', 'callsites', 'systems', 'canary']
+    # the interpolator's 4x4 moment block is handed to augmented_matrix /
+    # gj_solve with its own row stride (C14 order1): re-proved here
+    out += ['dep:C14:order1']
     out += ['tred2:%d' % k for k in range(TRED2_PATHS)]
     out += ['eigen_bounded']
     return out
@@ -473,6 +476,9 @@ print(json.dumps(dict(bad=bad)))
 
 # -------------------------------------------------------------------- tasks
 def run_task(task, ctx):
+    if task.startswith('dep:'):
+        from contracts import deps
+        return deps.run_dep(task, ctx)
     repo = Repo()
     m = repo.module(MOD)
     parts = task.split(':')
